@@ -8,6 +8,7 @@ import (
 	"go/parser"
 	"go/token"
 	"go/types"
+	"sort"
 	"strings"
 )
 
@@ -15,7 +16,7 @@ func init() { register("C02", "other", checkC02) }
 
 func checkC02(w *World, r *Result) {
 	r.Explanation = "Decides structural necessary conditions on generator/go/gounions (and the union table it consumes): TPL-C02a in every instantiation of the union template the marshalling wrapper is a struct with exactly the untagged fields Kind string / Data any and the unmarshalling one Kind string / Data json.RawMessage, the Marshal switch is on item.Data.(type) and the Unmarshal switch on wr.Kind, both ending in a default; AGR-C02b the Kind literal written and the Kind literal matched are the same value, the member's local Go type name (the vocabulary the TypeScript, Dart and SQL generators use too); AGR-C02c one encoding case and one decoding case per member, appended in the same loop iteration; the shadow struct gets one field, one to-wrapper and one from-wrapper entry per field of the struct, in lock-step; FLW-C02d the struct tag of every mirrored field is carried into the shadow struct (so every other field keeps the key encoding/json gives it); AGR-C02e every field type is handed to the generator whether or not the struct itself needs a wrapper (nested types in other files get their methods); AGR-C02w a field is replaced by its wrapper exactly when its analysed type is a union, with `<Union>Wrapper{item.F}` on the way out and `wr.F.Data` on the way in; TPL-C02f named slices/maps of unions wrap and unwrap element-wise; AGR-C11f the union table lists every implementer (rule shared with C11); TPL-1 the templates parse. Does not decide: deep equality of the round trip, nil/empty equivalence, encoding/json's behaviour on the shadow struct."
-	r.Rules = []string{"TPL-C02a", "AGR-C02b", "AGR-C02c", "FLW-C02d", "AGR-C02e", "AGR-C02w", "TPL-C02f", "TPL-C02g", "AGR-C11f", "TPL-1", "ALIAS-APPEND", "PRINTF", "CACHE-DROP", "AGR-C11c", "DECL-ID"}
+	r.Rules = []string{"TPL-C02a", "AGR-C02b", "AGR-C02c", "FLW-C02d", "AGR-C02e", "AGR-C02w", "TPL-C02f", "TPL-C02g", "TPL-C02m", "AGR-C11f", "TPL-1", "ALIAS-APPEND", "PRINTF", "CACHE-DROP", "AGR-C11c", "DECL-ID"}
 	declIDRule(w, r, "generator/go/gounions")
 	// the union table consumed by the templates: candidates are the defined named types of the scope, each once (rule shared with C11)
 	checkCandidates(w, r)
@@ -36,6 +37,72 @@ func checkC02(w *World, r *Result) {
 		r.add(o)
 	}
 	runTPLGo(w, r, "generator/go/gounions", 2)
+	checkMarshalByValue(w, r)
+}
+
+// checkMarshalByValue (TPL-C02m): the generated MarshalJSON has a value receiver, so for the original type
+// encoding/json sees fields that are not addressable and does not call marshalers declared on the pointer of a field's
+// type. The wrapper must be handed to json.Marshal the same way: by value. `json.Marshal(&wr)` makes every field of
+// the wrapper addressable, and a sibling field whose type has a pointer-receiver MarshalJSON / MarshalText is then
+// encoded by that method: the wire format of a field that has nothing to do with the union changes.
+func checkMarshalByValue(w *World, r *Result) {
+	var texts []struct {
+		label, pos, text string
+	}
+	for _, d := range extractDecls(w, "generator/go/gounions") {
+		if _, bad := hasUnknown(d.content); bad {
+			continue // reported by TPL-1
+		}
+		for _, in := range instances(d.content, 1) {
+			texts = append(texts, struct{ label, pos, text string }{d.label, w.Pos(d.pos), in.text})
+		}
+	}
+	ufi := w.MustFunc("generator/go/gounions.jsonForUnion")
+	for _, in := range instancesOfFunc(w, "generator/go/gounions.jsonForUnion", 1) {
+		texts = append(texts, struct{ label, pos, text string }{ufi.Name, fnPos(w, ufi), in.text})
+	}
+	n := 0
+	badAt := map[string]string{}
+	seen := map[string]bool{}
+	for _, t := range texts {
+		f, err := parser.ParseFile(token.NewFileSet(), "gen.go", goSource(t.text), parser.SkipObjectResolution)
+		if err != nil {
+			continue
+		}
+		for _, d := range f.Decls {
+			fd, ok := d.(*ast.FuncDecl)
+			if !ok || fd.Name.Name != "MarshalJSON" || fd.Body == nil {
+				continue
+			}
+			ast.Inspect(fd.Body, func(x ast.Node) bool {
+				call, ok := x.(*ast.CallExpr)
+				if !ok || len(call.Args) != 1 || types.ExprString(call.Fun) != "json.Marshal" {
+					return true
+				}
+				n++
+				seen[t.label+"|"+t.pos] = true
+				if u, ok := ast.Unparen(call.Args[0]).(*ast.UnaryExpr); ok && u.Op == token.AND {
+					badAt[t.label+"|"+t.pos] = types.ExprString(call.Args[0])
+				}
+				return true
+			})
+		}
+	}
+	var keys []string
+	for k := range seen {
+		keys = append(keys, k)
+	}
+	sort.Strings(keys)
+	for _, k := range keys {
+		parts := strings.SplitN(k, "|", 2)
+		arg, bad := badAt[k]
+		r.cond(!bad, "TPL-C02m", parts[0], "generated MarshalJSON hands its wrapper to json.Marshal by value", parts[1],
+			"the wrapper is marshalled by value, as encoding/json marshals the original value-receiver type: fields are not addressable",
+			"the generated MarshalJSON calls json.Marshal("+arg+"): through the pointer the wrapper's fields are addressable, so a sibling field whose type declares MarshalJSON/MarshalText on its pointer receiver is encoded by that method although the original struct, marshalled by value, never calls it — the wire format of that field changes")
+	}
+	if n == 0 {
+		Undecided("TPL-C02m: no json.Marshal call found in a generated MarshalJSON")
+	}
 }
 
 // instancesOfFunc: instantiations of the string a function returns.
